@@ -2,7 +2,7 @@
 (***************************************************************************)
 (* Second sentence of property C15 judged on free-running executions of    *)
 (* the real code (harness/cmd/c15, built with -race): while rule lists of  *)
-(* resources <m>_r1 (m = flow, isolation) are switched through versions    *)
+(* resources <m>_r1 (m = flow, isolation, hotspot) are switched through versions    *)
 (* 2..K, every request on <m>_r1 must be decided entirely by one version   *)
 (* that was current at some instant between its invocation and its return  *)
 (* (OldOrNew of RuleSwitch.tla, same version scheme: a mixture or an empty *)
@@ -18,8 +18,8 @@ VARIABLES l, g, loads, failed
 tvars == <<l, g, loads, failed>>
 Ev == Trace[l]
 IsEvent(op) == l <= Len(Trace) /\ Ev.op = op /\ l' = l + 1
-Mods == {"flow", "iso"}
-ModOf(res) == IF res \in {"f_r1", "f_r2"} THEN "flow" ELSE "iso"
+Mods == {"flow", "iso", "hot"}
+ModOf(res) == IF res \in {"f_r1", "f_r2"} THEN "flow" ELSE IF res \in {"i_r1", "i_r2"} THEN "iso" ELSE "hot"
 
 Judge(ok, expected) ==
     IF failed \/ ok THEN failed' = failed
@@ -44,7 +44,7 @@ TLoad ==
 TReq ==
     /\ IsEvent("req")
     /\ UNCHANGED <<g, loads>>
-    /\ IF Ev.res \in {"f_r1", "i_r1"}
+    /\ IF Ev.res \in {"f_r1", "i_r1", "p_r1"}
        THEN Judge(~Ev.pass /\ CurrentDuring(loads[ModOf(Ev.res)], Ev.marker, Ev.inv, Ev.ret),
                   [why |-> "request not decided entirely by one version current during it", req |-> Ev])
        ELSE Judge(~Ev.pass /\ Ev.marker = g.const,
